@@ -480,11 +480,6 @@ def selftest():
     assert refenc.decode(26, bytes([0b11100100, 0x01]), 5) == [0, 1, 2, 3, 1]
     assert refenc.encode(5, [0xFFFE]) == b"\xfe\xff" and refenc.int_value(5, 0xFFFE) == -2
     assert refenc.nbytes(25, 5) == 2 and refenc.nbytes(21, 3) == 2 and refenc.nbytes(1, 3) == 12
-    import onnx_ir as ir
-
-    for code in refenc.DT:
-        d = ir.DataType(code)
-        assert d.bitwidth == refenc.DT[code][0], (code, d.bitwidth)
 
 
 def extra(tier, seed, shard, col):
@@ -515,6 +510,8 @@ def _table_case(name):
             if d != ir.DataType.STRING:
                 if d.itemsize * 8 != d.bitwidth:
                     probs.append("itemsize*8 != bitwidth")
+                if int(d) in refenc.DT and d.bitwidth != refenc.DT[int(d)][0]:
+                    probs.append(f"bitwidth {d.bitwidth} != ONNX-defined {refenc.DT[int(d)][0]}")
                 npdt = np.dtype(d.numpy())
                 if d.bitwidth >= 8 and npdt.itemsize * 8 != d.bitwidth:
                     probs.append(f"numpy itemsize {npdt.itemsize} vs bitwidth {d.bitwidth}")
